@@ -9,7 +9,7 @@ from ..flow import Flow
 from ..model import AnalysisError, Cls, Func, Program, walk_own
 from ..report import Report
 from ..resolve import const_value, dotted
-from ..util import calls_in, ext_name, returns_of, src
+from ..util import before, calls_in, ext_name, returns_of, src
 from .oneshot import oneshot_rule
 
 SORTED_MOD = "windpyutils.structures.sorted"
@@ -279,6 +279,9 @@ def _derives_via_dedup(e: ast.expr, flow: Flow, param: str, depth=0) -> Optional
             inner.append(_derives_via_dedup(e.func.value, flow, param, depth + 1))
         if name in DEDUP_CALLS:
             return True if any(i is not None for i in inner) else None
+        if isinstance(e.func, ast.Attribute) and e.func.attr == "keys" and not e.args:
+            # <x>.keys(): only mappings have it, and a mapping's keys are unique (a sequence of pairs raises AttributeError)
+            return True if any(i is not None for i in inner) else None
         if any(i is False for i in inner):
             return False
         if any(i is True for i in inner):
@@ -310,19 +313,23 @@ def r2_dedup(prog, rep: Report, sf: SortedFacts):
              "sorting); for the map the step is last-wins", floor=2)
     # ---- SortedSet
     c = sf.sset
-    f = prog.method(c, "__init__")
+    f = prog.method_view(c, "__init__")      # private helpers of the class inlined (sa/inline.py)
     rep.fn(f)
     ks = sf.key_storage[c.qual]
     param = f.params[1] if len(f.params) > 1 else None
     flow = Flow(f.node)
     verdicts = []
+    # locals that become the storage (`self.<ks> = <local>`): what is appended to them is appended to the storage
+    alias_locals = {n.value.id for n in walk_own(f.node) if isinstance(n, ast.Assign) and isinstance(n.value, ast.Name)
+                    and any(dotted(t) == (f.self_name, ks) for t in n.targets)}
     for n in walk_own(f.node):
         if isinstance(n, ast.Call) and isinstance(n.func, ast.Attribute) and n.func.attr in ("append", "extend", "insert") \
-                and dotted(n.func.value) == (f.self_name, ks):
+                and (dotted(n.func.value) == (f.self_name, ks) or (isinstance(n.func.value, ast.Name) and n.func.value.id in alias_locals)):
             arg = n.args[-1]
             guard = _enclosing_if(n)
             loop = _enclosing_loop(n)
-            filt, filt_why = _adjacent_inequality(guard.test, arg, f, ks, loop, flow) if guard is not None else (None, None)
+            filt, filt_why = _adjacent_inequality(guard.test, arg, f, ks, loop, flow, storage_text=src(n.func.value)) \
+                if guard is not None else (None, None)
             sorted_iter = loop is not None and _iter_is_sorted(loop, flow)
             seed = loop is None and isinstance(arg, ast.Subscript) and const_value(arg.slice) == 0 \
                 and isinstance(arg.value, ast.Name) and isinstance(flow.expand(arg.value), ast.Call) \
@@ -345,7 +352,8 @@ def r2_dedup(prog, rep: Report, sf: SortedFacts):
                 and isinstance(n.func.value, ast.Name) and n.func.value.id == f.self_name:
             verdicts.append((True, "own add() de-duplicates", n))
         if isinstance(n, ast.Assign) and any(dotted(t) == (f.self_name, ks) for t in n.targets) \
-                and not (isinstance(n.value, ast.List) and not n.value.elts):
+                and not (isinstance(n.value, ast.List) and not n.value.elts) \
+                and not (isinstance(n.value, ast.Name) and n.value.id in alias_locals):
             if _same_class_storage(n, n.value, param, c.name, ks):
                 verdicts.append((True, "storage of another instance of the same class (sorted and duplicate-free by this rule)", n))
                 continue
@@ -362,35 +370,33 @@ def r2_dedup(prog, rep: Report, sf: SortedFacts):
                   line=bad[0][2].lineno if bad else None)
     # ---- SortedMap
     c = sf.smap
-    f = prog.method(c, "__init__")
+    f = prog.method_view(c, "__init__")
     rep.fn(f)
     ks = sf.key_storage[c.qual]
     param = f.params[1] if len(f.params) > 1 else None
     flow = Flow(f.node)
     results = []
-    for n in walk_own(f.node):
-        if not isinstance(n, ast.Assign):
+    from ..util import iter_stores
+    for t_, val_, n in iter_stores(f.node):
+        if dotted(t_) != (f.self_name, ks) or val_ is None or not isinstance(n, ast.Assign):
             continue
-        tgts = []
-        for t in n.targets:
-            tgts.extend(t.elts if isinstance(t, (ast.Tuple, ast.List)) else [t])
-        if not any(dotted(t) == (f.self_name, ks) for t in tgts):
-            continue
-        if isinstance(n.value, ast.List) and not n.value.elts:
+
+        nval = val_       # the value stored into the key storage (tuple targets are paired with a literal right-hand side)
+        if isinstance(nval, ast.List) and not nval.elts:
             continue
         mapping_branch = _under_isinstance(n, param, "Mapping")
         if mapping_branch:
             results.append((True, "Mapping branch: keys of a mapping are unique", n))
             continue
         # permutation of already stored keys ([self.keys[i] for i in order]) keeps the multiset
-        if _is_gather_of(n.value, f, ks):
+        if _is_gather_of(nval, f, ks):
             results.append((True, "re-ordering of the key storage by a permutation", n))
             continue
-        if _same_class_storage(n, n.value, param, c.name, ks):
+        if _same_class_storage(n, nval, param, c.name, ks):
             results.append((True, "key storage of another instance of the same class (unique by this rule)", n))
             continue
-        d = _derives_via_dedup(n.value, flow, param)
-        results.append((d is True, f"key storage assigned from `{src(n.value)}`"
+        d = _derives_via_dedup(nval, flow, param)
+        results.append((d is True, f"key storage assigned from `{src(nval)}`"
                         + (" through dict()" if d else ": no de-duplicating (last-wins) step between the pairs and the storage"), n))
     # keys appended under an adjacent-inequality filter over a (stable) sorted order: the earliest of equal keys comes first,
     # so "later pairs win" needs the value of a repeated key to be overwritten
@@ -477,7 +483,7 @@ def _iter_is_sorted(loop, flow: Flow) -> bool:
     return False
 
 
-def _adjacent_inequality(test, arg, f: Func, ks: str, loop=None, flow: Optional[Flow] = None):
+def _adjacent_inequality(test, arg, f: Func, ks: str, loop=None, flow: Optional[Flow] = None, storage_text: Optional[str] = None):
     """Truth-table check of a de-duplicating guard over a sorted iteration.
 
     The guard must be equivalent to  `first or cur != prev`  where cur is the appended value, prev the previously kept (or
@@ -489,7 +495,7 @@ def _adjacent_inequality(test, arg, f: Func, ks: str, loop=None, flow: Optional[
     from itertools import product
     from ..orderings import NotAFormula, eval_order, eval_prop
     cur = src(arg)
-    self_st = f"{f.self_name}.{ks}"
+    self_st = storage_text or f"{f.self_name}.{ks}"
 
     def is_prev(e) -> bool:
         t = src(e)
@@ -511,7 +517,7 @@ def _adjacent_inequality(test, arg, f: Func, ks: str, loop=None, flow: Optional[
     def none_local(e) -> bool:
         if not (isinstance(e, ast.Name) and is_prev(e) and loop is not None):
             return False
-        pre = [n for n in walk_own(f.node) if isinstance(n, ast.Assign) and n.lineno < loop.lineno
+        pre = [n for n in walk_own(f.node) if isinstance(n, ast.Assign) and before(f.node, n, loop)
                and any(isinstance(t_, ast.Name) and t_.id == e.id for t_ in n.targets)]
         return bool(pre) and all(isinstance(n.value, ast.Constant) and n.value.value is None for n in pre)
 
@@ -597,9 +603,32 @@ def _under_isinstance(n, param, clsname) -> bool:
 
 
 def _is_gather_of(e, f: Func, fld: str) -> bool:
-    return isinstance(e, ast.ListComp) and isinstance(e.elt, ast.Subscript) and dotted(e.elt.value) == (f.self_name, fld) \
-        and isinstance(e.elt.slice, ast.Name) and isinstance(e.generators[0].target, ast.Name) \
-        and e.elt.slice.id == e.generators[0].target.id
+    """[self.<fld>[i] for i in perm]  or a local list built as  L = []; for i in perm: L.append(self.<fld>[i]) ..."""
+    if isinstance(e, ast.ListComp):
+        return isinstance(e.elt, ast.Subscript) and dotted(e.elt.value) == (f.self_name, fld) \
+            and isinstance(e.elt.slice, ast.Name) and isinstance(e.generators[0].target, ast.Name) \
+            and e.elt.slice.id == e.generators[0].target.id
+    if isinstance(e, ast.Name):
+        inits, apps, other = [], [], []
+        for n in walk_own(f.node):
+            if isinstance(n, ast.Assign) and any(isinstance(t, ast.Name) and t.id == e.id for t in n.targets):
+                (inits if isinstance(n.value, ast.List) and not n.value.elts else other).append(n)
+            if isinstance(n, ast.Call) and isinstance(n.func, ast.Attribute) and isinstance(n.func.value, ast.Name) and n.func.value.id == e.id:
+                if n.func.attr == "append" and len(n.args) == 1:
+                    apps.append(n)
+                else:
+                    other.append(n)
+        if not inits or not apps or other:
+            return False
+        for a in apps:
+            v = a.args[0]
+            loop = _enclosing_loop(a)
+            if not (isinstance(v, ast.Subscript) and dotted(v.value) == (f.self_name, fld) and isinstance(v.slice, ast.Name)
+                    and isinstance(loop, ast.For) and isinstance(loop.target, ast.Name) and loop.target.id == v.slice.id
+                    and _enclosing_if(a) is None):
+                return False
+        return True
+    return False
 
 
 # ---------------------------------------------------------------------------------------------- R3
